@@ -1084,8 +1084,8 @@ class P(Prop):
         pre = dict(zip(rec["pre"]["names"], rec["pre"]["cols"]))
         post = dict(zip(rec["post"]["names"], rec["post"]["cols"]))
         for nm, col in pre.items():
-            if nm in touched:
-                continue
+            if nm in touched or nm.startswith("#"):
+                continue          # '#…' are the library's scratch names (operate(str) purges them all in its `finally`): not the user's features
             if nm not in post or not close(post[nm], col, 0.0, 0.0):
                 return "feature %s of the track changed: %s -> %s" % (nm, col, post.get(nm))
         r = rec["r"]
